@@ -4,19 +4,23 @@
    The laws are proved of the exact specification [own_share_grid] (integer axis-aligned boxes, coordinate
    compression, elementary cells), for ALL finite sets of integer boxes.
 
-   PARTIAL (own_share_partial), kept visible:
-     grid_eq_ie_axis_aligned :
-       forall b others, ibox_ok b -> Forall ibox_ok others ->
-         own_share_grid b others == uncovered Qops (rect of b) (map rect others) / area b
-     (the inclusion-exclusion specification own_shares_ie, which is what the check uses for rotated boxes, agrees
-     with the grid specification on integer axis-aligned boxes) is NOT proved; the laws of own_shares_ie for rotated
-     boxes rest on C08's unproved area link (clip_area_eq_ref); and that geo's sweep-line BooleanOps::difference
-     equals either specification and never fails is not a statement about any Gallina term.  These three are
-     carried by the correspondence only (tools/props/c15.py): own_shares_grid evaluated by coqc on every integer
-     set and compared exactly with an independent slab-decomposition reference and, within 2e-5, with the
-     implementation; own_shares_ie replayed exactly on every set, a subset evaluated by coqc. *)
+   grid_eq_ie_axis_aligned (below) closes the former gap between the two specifications: on integer axis-aligned
+   boxes the inclusion-exclusion specification [uncovered] at Qops - iterated Sutherland-Hodgman clips of the boxes'
+   rectangles + shoelace, the very function own_shares_ie is built from - IS the grid specification.
+
+   PARTIAL (own_share_partial), what really remains:
+     - own_shares_ie selects the boxes it clips with by position (near_pair / near_others: box j is kept for box i
+       unless too_far of the pair, lower index first) and then normalises by area + EPS.  grid_eq_ie_prefiltered
+       (below) shows that dropping ANY boxes that are too_far from b leaves the value; only the list bookkeeping
+       "near_others i = such a filter of the other boxes" and the composition with share_normalise
+       (share_normalise_is_translation) are not assembled into one equation  own_shares_ie = normalised grid shares;
+     - the laws of the inclusion-exclusion specification for ROTATED boxes rest on C08's unproved area link
+       (clip_area_eq_ref);
+     - that geo's sweep-line BooleanOps::difference equals either specification and never fails is not a statement
+       about any Gallina term.
+   These are carried by the correspondence only (tools/props/c15.py). *)
 From Coq Require Import List Bool ZArith QArith Permutation Lia.
-From Similari Require Import Base.Num Model.Geom Model.OwnArea Proofs.OwnAreaProofs.
+From Similari Require Import Base.Num Model.Geom Model.OwnArea Proofs.OwnAreaProofs Proofs.OwnAreaIE.
 From SimilariGen Require Import Scalar ScalarBox ScalarOwnArea.
 Import ListNotations.
 Open Scope Q_scope.
@@ -58,6 +62,35 @@ Proof. exact own_shares_grid_length. Qed.
 Theorem share_normalise_in_unit_interval :
   forall own area : Q, 0 <= own -> 0 <= area -> 0 <= share_normalise Qops own area <= 1.
 Proof. exact share_normalise_range. Qed.
+
+(* the grid specification is the inclusion-exclusion recursion  U(r, o::os) = U(r, os) - U(r /\ o, os),
+   U(r, []) = area r,  on integer rectangles: for ANY boxes (an empty box has area 0 on both sides) *)
+Theorem grid_eq_ie_rect :
+  forall b others, own_area_grid b others = uncovered_rect b others.
+Proof. exact own_area_grid_eq_rect. Qed.
+
+(* ... and the inclusion-exclusion specification used for rotated boxes ([uncovered] at Qops: iterated
+   Sutherland-Hodgman clips of the rectangles' vertex lists, shoelace areas), evaluated on the rectangles of integer
+   axis-aligned boxes, IS the grid specification *)
+Theorem grid_eq_ie_axis_aligned :
+  forall b others, ibox_ok b -> Forall ibox_ok others ->
+    own_share_grid b others ==
+    uncovered Qops (rect_vertices Qops (qbox_of_ibox b)) (map (fun o => rect_vertices Qops (qbox_of_ibox o)) others)
+    / box_area Qops (qbox_of_ibox b).
+Proof. exact grid_eq_ie_axis_aligned_lemma. Qed.
+
+(* the too_far pre-filter of the code changes nothing: dropping any boxes that are too_far from b (in either argument
+   order) before the inclusion-exclusion leaves the grid share (too_far boxes have an empty integer intersection, by
+   C08's too_far_sound and closed form) *)
+Theorem grid_eq_ie_prefiltered :
+  forall b others (keep : ibox -> bool), ibox_ok b -> Forall ibox_ok others ->
+    (forall o, In o others -> keep o = false ->
+       too_far Qops (qbox_of_ibox b) (qbox_of_ibox o) = true \/ too_far Qops (qbox_of_ibox o) (qbox_of_ibox b) = true) ->
+    own_share_grid b others ==
+    uncovered Qops (rect_vertices Qops (qbox_of_ibox b))
+              (map (fun o => rect_vertices Qops (qbox_of_ibox o)) (filter keep others))
+    / box_area Qops (qbox_of_ibox b).
+Proof. exact grid_eq_ie_prefiltered_lemma. Qed.
 
 (* the tie to the Rust source (gen/ScalarOwnArea.v, regenerated on every run): the normalisation the laws above are
    stated on is the translated  own_share_clamp (own_share_raw b area)  - equal by computation, so a changed formula
